@@ -77,15 +77,16 @@ type OblResult struct {
 }
 
 type RunResult struct {
-	Prop          string        `json:"prop"`
-	Tier          string        `json:"tier"`
-	Units         []*UnitResult `json:"units"`
-	SpecErrors    []string      `json:"spec_errors,omitempty"`
-	ContractFiles []string      `json:"contract_files"`
-	Overlaid      []string      `json:"contracts_overlaid,omitempty"`
-	LoadMs        int64         `json:"load_ms"`
-	WallMs        int64         `json:"wall_ms"`
-	LoadErrors    []string      `json:"load_errors,omitempty"`
+	Prop          string         `json:"prop"`
+	Tier          string         `json:"tier"`
+	Units         []*UnitResult  `json:"units"`
+	SpecErrors    []string       `json:"spec_errors,omitempty"`
+	EachSolver    map[string]int `json:"each_solver,omitempty"`
+	ContractFiles []string       `json:"contract_files"`
+	Overlaid      []string       `json:"contracts_overlaid,omitempty"`
+	LoadMs        int64          `json:"load_ms"`
+	WallMs        int64          `json:"wall_ms"`
+	LoadErrors    []string       `json:"load_errors,omitempty"`
 }
 
 var extContractPkgs = map[string]bool{}
@@ -546,6 +547,9 @@ func realMain() int {
 		if *flagVerbose {
 			printUnit(ur)
 		}
+	}
+	if *flagEachSolver {
+		res.EachSolver = eachSolverRuns
 	}
 	res.WallMs = time.Since(t0).Milliseconds()
 	writeJSON(res)
